@@ -134,6 +134,38 @@ func runC14(res *result) {
 			}
 		}
 	}
+	// an earlier connection whose peer is gone when the reply is written must not affect the next one
+	for _, k := range kinds {
+		for _, proto := range protos {
+			cs := &callSpec{Kind: "serve", Service: "Svc", Proto: proto, Server: "simple"}
+			seq := []reqKind{kinds[0], kinds[1]}
+			byOp := map[string]*outcomeSpec{}
+			var fss []frameSpec
+			for i, q := range seq {
+				fss = append(fss, q.frame(fmt.Sprint(100+i)))
+				if q.outcome != nil {
+					byOp[fmt.Sprint(100+i)] = q.outcome
+				}
+			}
+			if k.outcome != nil {
+				byOp["900"] = k.outcome
+			}
+			raw, _ := json.Marshal(fss)
+			var anyFS []map[string]interface{}
+			json.Unmarshal(raw, &anyFS)
+			rawB, _ := json.Marshal([]frameSpec{k.frame("900")})
+			var anyB []map[string]interface{}
+			json.Unmarshal(rawB, &anyB)
+			csj, _ := json.Marshal(cs)
+			var csm map[string]interface{}
+			json.Unmarshal(csj, &csm)
+			csm["frame_specs"] = anyFS
+			csm["broken_first"] = anyB
+			csm["outcome_by_opid"] = byOp
+			plan.Ops = append(plan.Ops, drvOp{Op: "call", Call: csm})
+			exps = append(exps, exp{seq: seq, cs: cs, desc: fmt.Sprintf("simple server, %s: after a connection that sent %s and went away before the reply: ok -> void-ok", proto, k.name), server: "simple"})
+		}
+	}
 	res.Nontrivial = int64(len(plan.Ops))
 	pj, _ := json.Marshal(plan)
 	out, err := runDriver(u, pj)
